@@ -275,3 +275,64 @@ Definition sess_step (s : sess) (a : attempt) : sess :=
   end.
 
 Definition run_session (l : list attempt) : sess := fold_left sess_step l (mk_sess false None).
+
+(** ---- concurrent logins: N sessions, one authentication backend ---- *)
+
+(** authenticateUser in two steps, as the scheduler may interleave them with the
+    steps of other sessions: [Render i] -- session i builds the request body
+    from ITS OWN user name and password into ITS OWN variable (requestBody is a
+    local of authenticateUser; nothing is shared between sessions) or refuses
+    locally; [Send i] -- the HTTP client hands that body to the backend and the
+    session finishes with the backend's answer to it.  The backend is a
+    function from the body it receives to its outcome. *)
+Record csession := mk_csession {
+  cs_d : str; cs_u : str; cs_p : str; cs_ens : ensure_fn; cs_init : bool }.
+
+(** the request of a session: a function of that session's credentials only *)
+Definition request_of (s : csession) : option str :=
+  match cs_d s with
+  | [] => None
+  | _ => if multi_at (cs_u s) then None else Some (build_body (email_of (cs_d s) (cs_u s)) (cs_p s))
+  end.
+
+Definition finish (s : csession) (o : outcome) : auth_out :=
+  authenticate_user (cs_d s) (cs_u s) (cs_p s) o (cs_ens s) (cs_init s).
+
+Inductive cev := Render (i : nat) | Send (i : nat).
+
+Record cstate := mk_cstate {
+  pend : nat -> option (option str);   (* per session: rendered? the body (None: refused locally) *)
+  recv : list str;                     (* bodies received by the backend, in order *)
+  outs : nat -> option auth_out        (* per session: how it finished *)
+}.
+
+Definition upd {A} (f : nat -> A) (i : nat) (v : A) : nat -> A :=
+  fun j => if Nat.eqb j i then v else f j.
+
+Definition cstep (sess : nat -> csession) (bk : str -> outcome) (st : cstate) (e : cev) : cstate :=
+  match e with
+  | Render i => mk_cstate (upd (pend st) i (Some (request_of (sess i)))) (recv st) (outs st)
+  | Send i =>
+      match pend st i with
+      | Some (Some body) =>
+          mk_cstate (pend st) (recv st ++ [body]) (upd (outs st) i (Some (finish (sess i) (bk body))))
+      | Some None => mk_cstate (pend st) (recv st) (upd (outs st) i (Some (finish (sess i) Refused)))
+      | None => st                      (* nothing rendered yet: not a step of the program *)
+      end
+  end.
+
+Definition cinit : cstate := mk_cstate (fun _ => None) [] (fun _ => None).
+Definition run_sched (sess : nat -> csession) (bk : str -> outcome) (sched : list cev) : cstate :=
+  fold_left (cstep sess bk) sched cinit.
+
+(** contrast (NOT raven's code): one buffer shared by all sessions *)
+Definition cstep_shared (sess : nat -> csession) (bk : str -> outcome)
+    (st : option str * list str * (nat -> option auth_out)) (e : cev) :=
+  let '(buf, rc, out) := st in
+  match e with
+  | Render i => (request_of (sess i), rc, out)
+  | Send i => match buf with
+              | Some body => (buf, rc ++ [body], upd out i (Some (finish (sess i) (bk body))))
+              | None => st
+              end
+  end.
